@@ -56,6 +56,7 @@ if __name__ == '__main__':
     ap.add_argument('--nocache', action='store_true')
     ap.add_argument('--emit', action='store_true', help='only write the assembled C file')
     ap.add_argument('-j', type=int, default=8)
+    ap.add_argument('--trace', help='print the counterexample inputs for this obligation id')
     a = ap.parse_args()
     try:
         mod = load_unit(a.unit)
@@ -70,6 +71,15 @@ if __name__ == '__main__':
         print(p)
         sys.exit(0)
     hs = [h for h in mod.HARNESSES if not a.harness or h.name in a.harness]
+    if a.trace:
+        import check
+        for h in hs:
+            r = run_harness(mod, h, ctext, info, trace_prop=a.trace)
+            for o in r.get('obligations', []):
+                if o['name'] == a.trace and o.get('trace'):
+                    for k, v in check.trace_inputs(o['trace'], h.entry).items():
+                        print('  %s = %s' % (k, v))
+        sys.exit(0)
     from concurrent.futures import ThreadPoolExecutor
     with ThreadPoolExecutor(a.j) as ex:
         for r in ex.map(lambda h: run_harness(mod, h, ctext, info, nocache=a.nocache), hs):
